@@ -218,3 +218,65 @@ def _(c):
     c.require(sym.And(kk < u, u <= kk + 1), "kstar=ceil(u)-1")
     fs = man.check(SymDate(t0 + kk * h), step)
     c.ensure("covered", sym.And(fs, kk >= 0, kk < K))
+
+
+# ---------------------------------------------------------------------------------------------
+# bounded: maneuvers in a numerical propagation take effect exactly once, with the stated delta-v
+# ---------------------------------------------------------------------------------------------
+
+def _grid_nummans(tier, rng):
+    """methods {rk4@30 s, dopri54@60 s, dopri54@300 s, rkf54@120 s} x frame tags {TNW, QSW, inertial} x maneuver dates {on the grid, off the grid}"""
+    for m in range(4):
+        for tag in range(3):
+            for on in (0, 1):
+                yield {"method": m, "tag": tag, "ongrid": on}
+
+
+@contract("C17", "num.maneuvers_native", funcs=["beyond.propagators.keplernum:KeplerNum._make_step", f"{MAN}:ImpulsiveMan.dv", f"{MAN}:ImpulsiveMan.check"],
+          grid=_grid_nummans, level="bounded")
+def _(c):
+    """bounded: a numerical propagation through three impulsive maneuvers ends where an independent piecewise two-body solution with the
+    stated delta-v (projected on independently computed axes) applied exactly once at each date ends (tolerance: integration error + one step
+    of late application); adaptive and fixed-step methods"""
+    from beyond.orbits import Orbit
+    from beyond.dates import Date, timedelta
+    from beyond.propagators.keplernum import KeplerNum
+    from beyond.env.solarsystem import get_body
+    from beyond.orbits.man import ImpulsiveMan
+    from beyond.constants import Earth
+    from contracts import twobody
+    from contracts.c19_mission import _kep2cart
+    method, st = [("rk4", 30.0), ("dopri54", 60.0), ("dopri54", 300.0), ("rkf54", 120.0)][c.integer("method")]
+    tag = ["TNW", "QSW", None][c.integer("tag")]
+    mu = Earth.mu
+    r0, v0 = _kep2cart(7.0e6, 0.01, 0.9, 1.0, 2.0, 0.5, mu)
+    d0 = Date(2018, 5, 4)
+    offs = [600.0, 1500.0, 2400.0] if c.integer("ongrid") else [613.7, 1511.3, 2437.9]
+    dvs = [np.array([1.5, 0.0, 0.0]), np.array([0.0, -2.0, 0.5]), np.array([-0.7, 0.3, 1.1])]
+    mans = [ImpulsiveMan(d0 + timedelta(seconds=t), dv, frame=tag) for t, dv in zip(offs, dvs)]
+    orb = Orbit(list(r0) + list(v0), d0, "cartesian", "EME2000", KeplerNum(timedelta(seconds=st), get_body("Earth"), method=method))
+    orb.maneuvers = mans
+    end = 3600.0
+    res = np.asarray(orb.propagate(d0 + timedelta(seconds=end)), dtype=float)
+
+    def axes(r, v):
+        if tag is None:
+            return np.identity(3)
+        h = np.cross(r, v)
+        w_ = h / np.linalg.norm(h)
+        if tag == "QSW":
+            q = r / np.linalg.norm(r)
+            return np.array([q, np.cross(w_, q), w_])
+        t_ = v / np.linalg.norm(v)
+        return np.array([t_, np.cross(w_, t_), w_])
+    r, v, t = np.array(r0), np.array(v0), 0.0
+    for off, dv in zip(offs, dvs):
+        r, v = twobody.propagate(r, v, off - t, mu)
+        v = v + axes(r, v).T @ dv
+        t = off
+    r, v = twobody.propagate(r, v, end - t, mu)
+    # a late application by up to one step displaces by |dv| * step at most; integration error is well below that
+    tol = 3 * 2.3 * st + 30.0
+    c.ensure("final_position", bool(np.linalg.norm(res[:3] - r) <= tol))
+    # a late application also turns the local axes by n*step: |dv| n step per maneuver, plus the gravity difference over the delay
+    c.ensure("final_velocity", bool(np.linalg.norm(res[3:] - v) <= 0.1 + 3 * 2.3 * 1.2e-3 * st * 2))
